@@ -70,6 +70,10 @@ uint64_t cmb_random_sfc64(void)
  */
 static CMB_THREAD_LOCAL uint64_t splitmix_state = DUMMY_SEED;
 
+/* Cache of random bits for cmb_random_flip, emptied whenever the generator is (re)seeded */
+static CMB_THREAD_LOCAL uint64_t flip_bits = 0u;
+static CMB_THREAD_LOCAL uint8_t flip_bitpos = 0u;
+
 static void splitmix_initialize(const uint64_t seed)
 {
     splitmix_state = seed;
@@ -94,6 +98,7 @@ static uint64_t splitmix64(void)
 void cmb_random_initialize(const uint64_t seed)
 {
     initial_seed = seed;
+    flip_bitpos = 0u;
     splitmix_initialize(seed);
     prng_state.a = splitmix64();
     prng_state.b = splitmix64();
@@ -116,6 +121,7 @@ void cmb_random_terminate(void) {
     prng_state.d = DUMMY_SEED;
 
     splitmix_state = DUMMY_SEED;
+    flip_bitpos = 0u;
 }
 
 /*
@@ -522,15 +528,12 @@ double cmb_random_PERT_mod(const double min,
 /* Simple flip of a fair unbiased coin, caching bits for efficiency */
 int cmb_random_flip(void)
 {
-    static CMB_THREAD_LOCAL uint64_t bits;
-    static CMB_THREAD_LOCAL uint8_t bitpos = 0;
-
-    if (bitpos == 0) {
-        bits = cmb_random_sfc64();
-        bitpos = 64;
+    if (flip_bitpos == 0u) {
+        flip_bits = cmb_random_sfc64();
+        flip_bitpos = 64u;
     }
 
-    return ((bits >> --bitpos) & 1) ? 1 : 0;
+    return ((flip_bits >> --flip_bitpos) & 1u) ? 1 : 0;
 }
 
 /*
